@@ -354,6 +354,19 @@ def check_property(pid, tier, seed):
                         continue
                 if agree:
                     continue
+                if F.get("retry_transient"):
+                    # families driven by real timers: a disagreement has to show again when the same case is run
+                    # once more (a late timer goroutine on a loaded machine does not; a defect does)
+                    try:
+                        o2 = run_impl(fam, normalise(fam, [c]), timeout=120)[0]
+                        agree2 = families.project(fam, e) == families.project(fam, o2)
+                        if agree2 and F.get("always_oracle"):
+                            agree2 = F["oracle"](pc, sexp.parse(o2), sexp.parse(e))[0] != "violation"
+                    except Exception:
+                        agree2 = False
+                    if agree2:
+                        hist["transient disagreement, not reproduced on a second run"] = hist.get("transient disagreement, not reproduced on a second run", 0) + 1
+                        continue
                 # a generated case that falls in a listed known-finding class is not a new violation
                 kmatch = None
                 for k in known["findings"]:
